@@ -118,6 +118,81 @@ def r171(repo, ctx):
     ctx.check(ok, 'R17.1', DP, '_computeSingleMobility', f, 'the mobility record carries the names of the stable phases in row order', 'the mobility record no longer carries the stable phase names in row order')
 
 
+def r177(repo, ctx):
+    """the database phase list is a fallback for the row names only when the caller did not pass the stable phases: every use of
+    `therm.phases` as a value in a post-processing function is the default of kwargs.get('phases', ..) or lies on paths on
+    which the 'phases' keyword is known to be absent (must-analysis on the CFG).  Any other condition (equal lengths, ...)
+    lets positions in the database list address rows of the per-stable-phase arrays."""
+    from .. import cfg as C
+    n = 0
+    # the post-processing functions and every helper of the module that reads the 'phases' keyword
+    cands = []
+    for q_, g_ in repo.functions(HP):
+        if '.' in q_ or not U.params(g_):
+            continue
+        if q_ in POST or any(isinstance(c, ast.Call) and U.call_name(c) == 'kwargs.get' and c.args and U.is_const(c.args[0]) and c.args[0].value == 'phases' for c in ast.walk(g_)):
+            cands.append((q_, g_))
+    for fn, g_ in cands:
+        tn = U.params(g_)[0]
+        defs = single_defs(g_)
+        kwnames = {nm for nm, v in defs.items() if isinstance(v, ast.Call) and U.call_name(v) == 'kwargs.get' and v.args and U.is_const(v.args[0]) and v.args[0].value == 'phases'
+                   and (len(v.args) == 1 or (isinstance(v.args[1], ast.Constant) and v.args[1].value is None))}
+
+        def absent_facts(test, want):
+            out = set()
+            if isinstance(test, ast.Compare) and len(test.ops) == 1:
+                l, op, r = test.left, test.ops[0], test.comparators[0]
+                if isinstance(l, ast.Name) and l.id in kwnames and isinstance(r, ast.Constant) and r.value is None:
+                    if (isinstance(op, ast.Is) and want) or (isinstance(op, ast.IsNot) and not want):
+                        out.add('absent')
+                if isinstance(l, ast.Constant) and l.value == 'phases' and isinstance(r, ast.Name) and r.id == 'kwargs':
+                    if (isinstance(op, ast.NotIn) and want) or (isinstance(op, ast.In) and not want):
+                        out.add('absent')
+            elif isinstance(test, ast.UnaryOp) and isinstance(test.op, ast.Not):
+                out |= absent_facts(test.operand, not want)
+            elif isinstance(test, ast.BoolOp):
+                if (isinstance(test.op, ast.And) and want) or (isinstance(test.op, ast.Or) and not want):
+                    for v in test.values:
+                        out |= absent_facts(v, want)
+            return out
+        gph = C.build(g_)
+
+        def gen(node, label):
+            if node.kind == 'test' and label in (True, False):
+                return absent_facts(node.ast.test if hasattr(node.ast, 'test') else node.ast, label)
+            return set()
+        IN = C.must_forward(gph, gen)
+        bad = []
+        uses = 0
+        for node in gph.nodes:
+            eff = C.simple_effect_node(node)
+            if eff is None or node.kind != 'stmt':
+                continue
+            parent = {}
+            for x in ast.walk(eff):
+                for c in ast.iter_child_nodes(x):
+                    parent[id(c)] = x
+            for x in ast.walk(eff):
+                if isinstance(x, ast.Attribute) and x.attr == 'phases' and isinstance(x.value, ast.Name) and x.value.id == tn and isinstance(x.ctx, ast.Load):
+                    par = parent.get(id(x))
+                    if isinstance(par, ast.Call) and U.call_name(par) == 'kwargs.get' and len(par.args) == 2 and par.args[1] is x:
+                        uses += 1
+                        continue        # the default of kwargs.get('phases', therm.phases)
+                    if isinstance(par, ast.Call) and U.call_name(par) == 'len':
+                        continue        # a length, not a list of row names
+                    uses += 1
+                    facts = IN.get(node.id)
+                    if facts is None or 'absent' not in facts:
+                        bad.append(eff)
+        if not uses:
+            continue
+        n += 1
+        ctx.check(not bad, 'R17.7', HP, fn, bad[0] if bad else g_, f'the database phase list stands in for the row names only where the caller passed no stable-phase names ({uses} use(s))',
+                  f'{U.src(bad[0])[:80] if bad else ""}: the database phase list is used for the row names on a path on which the caller may have passed the names of the stable phases: '
+                  'rows of the per-stable-phase arrays are then addressed by position in the database list (another phase that happens to share the position)', construct=f'{fn}: fallback to therm.phases')
+    ctx.floor('R17.7', n, 1)
+
+
 def r172_r175(repo, ctx, purity):
     n = 0
     for fn in AVG:
@@ -350,3 +425,4 @@ def check(repo, ctx, index, purity):
     r173(repo, ctx, index)
     r174(repo, ctx)
     r176(repo, ctx)
+    r177(repo, ctx)
